@@ -37,8 +37,8 @@ LEVEL_TEXT = ("Every history of up to k hy.repr calls over the operand alphabet,
 RULE = ("BFS over operation sequences, shortest first; an operation is (operand, set of call-local fault points that all fire); "
         "a state is the canonical form (_quoting, labels of the objects whose ids are in _seen, faults spent) read from the real module "
         "at call boundaries and at every printer fault point; 'states' counts the distinct canonical states of the pruned state-graph "
-        "search; non-trivial = the history enters at least one registered test printer (so a mid-call state was observed) and, counted "
-        "separately, contains at least one failing printer")
+        "search; non-trivial = the history contains at least one call in which a registered printer fails (raises at a fault point, "
+        "escaping or caught by an enclosing printer); histories that enter a test printer at all are counted separately")
 ASSUMPTIONS = [
     "operand alphabet and printer scripts as listed in mc/ref/hs_repr.py; history depth and total faults per history as stated in bounds",
     "printer failures are raised as a BaseException subclass at the listed fault points only",
@@ -130,7 +130,7 @@ class ReprSystem:
         return ctx.mid
 
     def nontrivial(self, ctx):
-        return ctx.entered
+        return ctx.failed
 
     def step(self, ctx, op):
         H = self.H
@@ -198,8 +198,8 @@ def _explore(acc, tier, roots, prune, depth, count_states):
 
     def on_history(history, ctx):
         acc.outcome(system.outcome(ctx))
-        if ctx.failed:
-            acc.count("histories_with_a_failing_printer")
+        if ctx.entered:
+            acc.count("histories_entering_a_test_printer")
         if ctx.failed and history[-1][1] == [] and len(history) > 1:
             acc.count("histories_ending_in_a_clean_call_after_a_failure")
 
